@@ -12,7 +12,7 @@ MANIFEST = dict(
 )
 
 RULE = (
-    "W9: every binary tree shape (0/left-only/right-only/2 children per node) up to N nodes (quick 8, thorough 10) built "
+    "W9: every binary tree shape (0/left-only/right-only/2 children per node) up to N nodes (quick 9, thorough 11) built "
     "from BinaryTreeNode and from MathExpression classes with repeated ids, x 3 orders x every STOP position x start at "
     "every node with a non-zero depth argument; plus random shapes to 200 nodes, chains and zig-zags to depth 300. "
     "Monitors on visit_*/get_*/is_leaf/to_list/find_type/find_id compare each call with a reference recursion over "
@@ -113,7 +113,7 @@ def run(rec, cfg):
     MT.attach_visits("C14")
     MT.attach_queries("C14")
     fac = factories()
-    nmax = cfg.scale(8, 10)
+    nmax = cfg.scale(9, 11)
     rng = cfg.rng("c14")
     idx = 0
     for s in W9.all_shapes_upto(nmax):
